@@ -86,11 +86,7 @@ void PUTStatement::unparse(Context& ctx, FILE * out) const
   fputs(Statement::KEYWORDS[keyword()], out);
   if (_args.empty())
     return;
-  for (const Expression * exp : _args)
-  {
-    fputs(" ", out);
-    fputs(exp->unparse(ctx).c_str(), out);
-  }
+  unparse_list(ctx, _args, out);
 }
 
 PUTStatement * PUTStatement::parse(Parser& p, Context& ctx)
